@@ -249,7 +249,7 @@ def r3_catch_all(chk, fx):
     chk.floor("C14/R3 reader matches", len(loops), 15)
     for lp in loops:
         ca = [a for a in lp.arms if a.catch_all]
-        ok = len(ca) == 1 and ca[0] is lp.arms[-1] and "returnResult::Err(" in ca[0].body_text() and "UnexpectedXmlEvent" in ca[0].body_text()
+        ok = len(ca) == 1 and ca[0] is lp.arms[-1] and lp.arm_fails(ca[0]) and "UnexpectedXmlEvent" in ca[0].body_text()
         chk.instance("C14/R3", "%s ends with a catch-all arm returning UnexpectedXmlEvent" % lp.label(), lp.fn, loc_of(lp.sp), holds=ok,
                      key="C14/R3 %s catch-all" % lp.label())
     # UTF-8 validated before parsing — decided on the explored paths of ServerMsg::recv: what from_xml is handed is the Ok payload
